@@ -36,7 +36,8 @@ PROPS = {
         "level_text": "Theorems (Props/C01.lean) for all inputs. AT THE BYTE LEVEL (streaming_file_roundtrip, batch_file_roundtrip; Lemmas/FileE2E.lean): the outer documents {_id, type, doc | data} "
                       "are serialised as the collectors serialise them and the reader model frames, parses, inflates and decodes them - for every chunk size, every number of documents, any schemas (rejected "
                       "documents included) the BYTES the streaming collector hands to its writer, resp. the bytes Resolve of the batch collector returns, are read back by ReadChunks without error into exactly the "
-                      "accepted documents' values, once each and in order; zlib enters only through the assumption inflate (deflate p) = (p, clean end). End to end for the streaming collector with every chunk size n and every number of documents "
+                      "accepted documents' values, once each and in order; zlib enters only through the assumption inflate (deflate p) = (p, clean end). streaming_file_structured: for documents of one schema, ReadStructuredMetrics of those bytes gives - chunk by chunk, in order - "
+                      "exactly the documents added (all but the pending chunk's) with their non-metric leaves removed. End to end for the streaming collector with every chunk size n and every number of documents "
                       "(streaming_collector_roundtrip): Add d0 and any documents ds of its schema - what was handed to the writer is one metric chunk per run of consecutive "
                       "documents, the pending chunk is one more run, the runs concatenated are d0 :: ds, and the reader decodes every chunk to exactly its documents with the "
                       "non-metric leaves removed, in order. The same for the batch collector (batch_collector_roundtrip: Resolve returns one chunk per run), and for the two "
@@ -106,7 +107,7 @@ PROPS = {
         "rule": "meta: streams with zero, one or several metadata documents (type as int32/int64/double incl. -0.0) interleaved with chunks from the reference "
                 "encoder and from every real collector with SetMetadata; Metadata() read after every Next of the chunk, document, matrix and series iterators. "
                 "Distinct = distinct byte stream.",
-        "level_text": "Theorems (Props/C11.lean): chunk_metadata_is_latest — for every stream of framed documents the chunk decoded from a document carries the most "
+        "level_text": "file_metadata_travels (Props/C11.lean, Lemmas/FileE2E.lean), write side and read side together at the byte level: in the file made of ANY list of output documents (metadata documents and decodable chunks in any order, serialised as the collectors serialise them) every chunk the reader delivers carries the metadata document that precedes it most closely - none before the first one; a replaced metadata document describes exactly the chunks between it and its replacement - together with its own reference document and samples, and no error is reported (zlib assumed only to invert). Theorems (Props/C11.lean): chunk_metadata_is_latest — for every stream of framed documents the chunk decoded from a document carries the most "
                       "recent preceding metadata document (none => nil); write side: metadata emitted as its own type-0 document ahead of the chunk, never in the "
                       "payload, replaced by a later SetMetadata, kept across Add/Reset.",
         "level_note": "Iterator clause: items carry their chunk's metadata through the worker pipe (fix F11); the schedule-independence of that pairing is part of "
